@@ -440,6 +440,14 @@ func init() {
 			// the two ways a peer offers versions are read completely (a shared version is not lost on the way)
 			a.c16Whitespace()
 			a.c16QueryParse("V.query-parse")
+			a.signatureLayout("K.signature")
+			a.c15FragmentPrefix()
+			// a repeated or replacing DH-Commit while we wait for the Reveal-Signature is answered with the DH-Key already
+			// sent (the peer may have used it): that handler draws no new exponent
+			if f := a.MustFn("(authStateAwaitingRevealSig).receiveDHCommitMessage"); f != nil {
+				a.R.Check(!a.reaches(f, "(*Conversation).dhKeyMessage") && !a.reaches(f, "(*Conversation).setSecretExponent"), "T.ake-same-key", "AWAITING_REVEALSIG|DH-Commit", "the DH-Key sent before is sent again, no new key is drawn", a.C.Pos(f.Pos()),
+					"the handler can reach the generation of a new DH key: a peer that already answered the first DH-Key sends a Reveal-Signature we can no longer verify, and both sides are stuck")
+			}
 		})
 }
 
